@@ -103,15 +103,22 @@ theorem withTx_some (S : Suite) (s : Sess) (now ssrc : Nat) (f : Ctx → Except 
       { s with tx := replace (evict s.tx ssrc now) (f { c with lastUsed := now }).2 }) := by
   unfold Sess.withTx; simp only [hl]
 
+theorem withTx_none_full (S : Suite) (s : Sess) (now ssrc : Nat) (f : Ctx → Except Err Bytes × Ctx)
+    (hl : lookup (evict s.tx ssrc now) ssrc = none) (hfull : maxTxContexts ≤ (evict s.tx ssrc now).length) :
+    s.withTx S now ssrc f = (.error .internal, { s with tx := evict s.tx ssrc now }) := by
+  unfold Sess.withTx; simp only [hl, hfull, if_true]
+
 theorem withTx_none_err (S : Suite) (s : Sess) (now ssrc : Nat) (f : Ctx → Except Err Bytes × Ctx) {e : Err}
-    (hl : lookup (evict s.tx ssrc now) ssrc = none) (hn : Ctx.new S ssrc s.profile s.txMk s.txMs now = .error e) :
+    (hl : lookup (evict s.tx ssrc now) ssrc = none) (hroom : ¬ maxTxContexts ≤ (evict s.tx ssrc now).length)
+    (hn : Ctx.new S ssrc s.profile s.txMk s.txMs now = .error e) :
     s.withTx S now ssrc f = (.error e, { s with tx := evict s.tx ssrc now }) := by
-  unfold Sess.withTx; simp only [hl, hn]
+  unfold Sess.withTx; simp only [hl, hroom, hn, if_false]
 
 theorem withTx_none_ok (S : Suite) (s : Sess) (now ssrc : Nat) (f : Ctx → Except Err Bytes × Ctx) {c : Ctx}
-    (hl : lookup (evict s.tx ssrc now) ssrc = none) (hn : Ctx.new S ssrc s.profile s.txMk s.txMs now = .ok c) :
+    (hl : lookup (evict s.tx ssrc now) ssrc = none) (hroom : ¬ maxTxContexts ≤ (evict s.tx ssrc now).length)
+    (hn : Ctx.new S ssrc s.profile s.txMk s.txMs now = .ok c) :
     s.withTx S now ssrc f = ((f c).1, { s with tx := evict s.tx ssrc now ++ [(f c).2] }) := by
-  unfold Sess.withTx; simp only [hl, hn]
+  unfold Sess.withTx; simp only [hl, hroom, hn, if_false]
 
 theorem withTx_inv (S : Suite) (s : Sess) (now ssrc : Nat) (f : Ctx → Except Err Bytes × Ctx)
     (hf : ∀ c, c.KeyedBy S s.profile s.txMk s.txMs → (f c).2.KeyedBy S s.profile s.txMk s.txMs)
@@ -130,10 +137,12 @@ theorem withTx_inv (S : Suite) (s : Sess) (now ssrc : Nat) (f : Ctx → Except E
     · exact hev x h
     · rw [h]; exact hf _ (stamp_keyed (hev c (lookup_mem hl)) now)
   | none =>
+    by_cases hfull : maxTxContexts ≤ (evict s.tx ssrc now).length
+    · rw [withTx_none_full S s now ssrc f hl hfull]; exact ⟨hev, rfl, rfl, rfl, rfl, rfl, rfl⟩
     cases hn : Ctx.new S ssrc s.profile s.txMk s.txMs now with
-    | error e => rw [withTx_none_err S s now ssrc f hl hn]; exact ⟨hev, rfl, rfl, rfl, rfl, rfl, rfl⟩
+    | error e => rw [withTx_none_err S s now ssrc f hl hfull hn]; exact ⟨hev, rfl, rfl, rfl, rfl, rfl, rfl⟩
     | ok c =>
-      rw [withTx_none_ok S s now ssrc f hl hn]
+      rw [withTx_none_ok S s now ssrc f hl hfull hn]
       refine ⟨?_, rfl, rfl, rfl, rfl, rfl, rfl⟩
       intro x hx
       simp only [List.mem_append, List.mem_singleton] at hx
@@ -238,28 +247,42 @@ theorem lookup_append_new {t : List Ctx} {k : Nat} {c : Ctx} (h : lookup t k = n
 theorem withTx_result (S : Suite) (s : Sess) (now ssrc : Nat) (f : Ctx → Except Err Bytes × Ctx)
     (hinv : TableInv S s.profile s.txMk s.txMs s.tx)
     (hk : srtpKeyLen ≤ s.txMk.length) (hs : s.profile.saltLen ≤ s.txMs.length)
+    (htxroom : (lookup s.tx ssrc).isSome = true ∨ s.tx.length < maxTxContexts)
     (hssrc : ∀ c, (f c).2.ssrc = c.ssrc) :
     ∃ cs, cs.KeyedBy S s.profile s.txMk s.txMs ∧ cs.ssrc = ssrc ∧
       (cs.roc, cs.last) = rocOf (evict s.tx ssrc now) ssrc ∧
       (s.withTx S now ssrc f).1 = (f cs).1 ∧
-      rocOf (s.withTx S now ssrc f).2.tx ssrc = ((f cs).2.roc, (f cs).2.last) := by
+      rocOf (s.withTx S now ssrc f).2.tx ssrc = ((f cs).2.roc, (f cs).2.last) ∧
+      (lookup (s.withTx S now ssrc f).2.tx ssrc).isSome = true := by
   cases hl : lookup (evict s.tx ssrc now) ssrc with
   | some c =>
     have hc := hinv c (lookup_evict_mem hl)
     have hcs : c.ssrc = ssrc := lookup_ssrc hl
-    refine ⟨{ c with lastUsed := now }, stamp_keyed hc now, hcs, by simp [rocOf, hl], ?_, ?_⟩
+    have hlk := lookup_replace_self (c' := (f { c with lastUsed := now }).2) hl (by rw [hssrc]; exact hcs)
+    refine ⟨{ c with lastUsed := now }, stamp_keyed hc now, hcs, by simp [rocOf, hl], ?_, ?_, ?_⟩
     · rw [withTx_some S s now ssrc f hl]
     · rw [withTx_some S s now ssrc f hl]
-      have := lookup_replace_self (c' := (f { c with lastUsed := now }).2) hl (by rw [hssrc]; exact hcs)
-      simp only [rocOf, this]
+      simp only [rocOf, hlk]
+    · rw [withTx_some S s now ssrc f hl]
+      simp only [hlk, Option.isSome_some]
   | none =>
     obtain ⟨c, hn⟩ := Ctx.new_usable S ssrc s.profile s.txMk s.txMs now hk hs
     obtain ⟨h1, h2, h3, _, h5⟩ := Ctx.new_ok hn
-    refine ⟨c, h5, h1, by simp [rocOf, hl, h2, h3], ?_, ?_⟩
-    · rw [withTx_none_ok S s now ssrc f hl hn]
-    · rw [withTx_none_ok S s now ssrc f hl hn]
-      have := lookup_append_new (c := (f c).2) hl (by rw [hssrc]; exact h1)
-      simp only [rocOf, this]
+    have hroom : ¬ maxTxContexts ≤ (evict s.tx ssrc now).length := by
+      have hle : (evict s.tx ssrc now).length ≤ s.tx.length := by
+        unfold evict; split
+        · exact Nat.le_refl _
+        · exact List.length_filter_le _ _
+      rcases htxroom with h | h
+      · rw [← lookup_evict_keep s.tx ssrc now, hl] at h; simp at h
+      · omega
+    have hlk := lookup_append_new (c := (f c).2) hl (by rw [hssrc]; exact h1)
+    refine ⟨c, h5, h1, by simp [rocOf, hl, h2, h3], ?_, ?_, ?_⟩
+    · rw [withTx_none_ok S s now ssrc f hl hroom hn]
+    · rw [withTx_none_ok S s now ssrc f hl hroom hn]
+      simp only [rocOf, hlk]
+    · rw [withTx_none_ok S s now ssrc f hl hroom hn]
+      simp only [hlk, Option.isSome_some]
 
 /-- the context `withRx` works on; if `f` accepts, where its result ends up -/
 theorem withRx_result {α : Type} (S : Suite) (r : Sess) (now ssrc : Nat) (f : Ctx → Except Err α × Ctx)
@@ -458,12 +481,14 @@ theorem withTx_frame (S : Suite) (s : Sess) (T now ssrc : Nat) (f : Ctx → Exce
     · simp only [rocOf]
       rw [lookup_replace_other (by rw [hssrc]; show c.ssrc ≠ k; rw [hcs]; exact fun e => hk e.symm)]
   | none =>
+    by_cases hfull : maxTxContexts ≤ (evict s.tx ssrc now).length
+    · rw [withTx_none_full S s now ssrc f hl hfull, hev]; exact ⟨hu, fun _ _ => rfl⟩
     cases hn' : Ctx.new S ssrc s.profile s.txMk s.txMs now with
     | error e =>
-      rw [withTx_none_err S s now ssrc f hl hn', hev]
+      rw [withTx_none_err S s now ssrc f hl hfull hn', hev]
       exact ⟨hu, fun _ _ => rfl⟩
     | ok c =>
-      rw [withTx_none_ok S s now ssrc f hl hn', hev]
+      rw [withTx_none_ok S s now ssrc f hl hfull hn', hev]
       have hcs : c.ssrc = ssrc := (Ctx.new_ok hn').1
       refine ⟨fun x hx => ?_, fun k hk => ?_⟩
       · simp only [List.mem_append, List.mem_singleton] at hx
@@ -649,5 +674,21 @@ theorem withRx_bounded {α : Type} (S : Suite) (r : Sess) (now ssrc : Nat) (f : 
             rw [if_neg (by simp only [maxRxContexts_val, ssrcContextHighWatermark_val] at heq ⊢; omega)]
             exact filter_keep_absent r.rx ssrc now hl
           rw [hev]; omega
+
+/-- a transmit operation adds at most one context -/
+theorem withTx_length (S : Suite) (s : Sess) (now ssrc : Nat) (f : Ctx → Except Err Bytes × Ctx) :
+    (s.withTx S now ssrc f).2.tx.length ≤ s.tx.length + 1 := by
+  have hle := evict_length_le s.tx ssrc now
+  cases hl : lookup (evict s.tx ssrc now) ssrc with
+  | some c => rw [withTx_some S s now ssrc f hl]; simp only [replace_length]; omega
+  | none =>
+    by_cases hfull : maxTxContexts ≤ (evict s.tx ssrc now).length
+    · rw [withTx_none_full S s now ssrc f hl hfull]; show (evict s.tx ssrc now).length ≤ _; omega
+    cases hn : Ctx.new S ssrc s.profile s.txMk s.txMs now with
+    | error e => rw [withTx_none_err S s now ssrc f hl hfull hn]; show (evict s.tx ssrc now).length ≤ _; omega
+    | ok c =>
+      rw [withTx_none_ok S s now ssrc f hl hfull hn]
+      show (evict s.tx ssrc now ++ [_]).length ≤ _
+      simp only [List.length_append, List.length_singleton]; omega
 
 end RtcModel.Srtp
